@@ -7,7 +7,7 @@ import json, os, shutil, subprocess, tempfile, time
 from . import common as C
 from . import asa, ios
 
-PASSWORD = "p@ss_w/o&=%1Zq"          # contains characters that need URL escaping
+PASSWORD = "p@ss_w/o&=%1Z~q*"        # characters that need URL escaping and ones (`~`) that are legal unescaped
 TEST_TIME = "2024-Sep-29 16:19:50"
 
 T = lambda k, v: {"k": k, "v": v}
